@@ -1,8 +1,12 @@
-import PlasVerif.Proofs.Filenames
+import PlasVerif.Proofs.FilenamesExpand
+import PlasVerif.Proofs.FilenamesBudget
+import PlasVerif.Proofs.FilenamesRefine
 /-!
 # C15 — The filename generator yields unique, clean names in template order
 
-Property theorems only; helper lemmas are in `Proofs/Filenames.lean`.  All statements are about
+Property theorems only; helper lemmas are in `Proofs/Filenames.lean`, `Proofs/FilenamesExpand.lean`
+(template level), `Proofs/FilenamesBudget.lean` (observation O3) and `Proofs/FilenamesRefine.lean`
+(refinement of the Spec's reference generator).  All statements are about
 `Model/Filenames.lean` (the code after the `fix:` commits D12, D14–D17) and hold for every
 configuration, template, state and request history (no bound on lengths or on the pass bound).
 The ghost trace (`Event`s) returned by `request` records every candidate tried.
@@ -169,19 +173,142 @@ theorem literal_expands_to_itself (cfg : Config) (v : Env) (n : Nat) (x : Str) (
     expand cfg v n x = .ok x (envHas (cleanEnv cfg v) numKey) :=
   expand_lit cfg v n x h
 
-/-- Full statement of the template-level clause, NOT proved here (kept as a `Prop`): on every well-formed
-    template tree the string-level machinery of the code (`findall`, format stripping, `string.Template`
-    substitution, word limit, padding, character replacement) computes the tree denotation `render`.
-    Proved part: `literal_expands_to_itself` (trees without variables) together with the component theorems
-    `zero_padding`, `word_limit`, `bad_chars_replaced`.  Missing: the induction over variable segments
-    (three scanner lemmas over `Seg.lin` and the fold `applyKeys` under `Nodup` names).  The clause is
-    carried by the correspondence instead: `Spec.render` is the oracle every `fname` case is judged against. -/
-def expand_eq_render_statement : Prop :=
-  ∀ (cfg : Config) (env : Env) (num : Nat) (t : Tmpl), wf t = true → envGet env numKey = none →
-    (∀ c ∈ cfg.sub, c ∉ cfg.bad) →
+/-- **The string-level machinery computes the tree denotation** on every well-formed template tree
+    (literal text without `$`, identifiers as names, digit strings as widths, every variable used at most
+    once): `keysre.findall`, the number / word-limit loop over the keys, the character substitution, the
+    format stripping and `string.Template.substitute` together yield exactly `render` — the running number
+    zero-padded to its width, each bound value limited to its first `width` words, forbidden characters
+    replaced — report an unbound variable exactly when `render` is undefined, and flag the candidate as
+    numbered exactly when the template mentions `$num` (or the caller bound `num`).  Hypothesis on the
+    configuration: the substitute string contains no forbidden character (otherwise the sequential
+    `replace` calls re-replace it, see `bad_chars_replaced`). -/
+theorem expand_eq_render (cfg : Config) (env : Env) (num : Nat) (t : Tmpl) (hwf : wf t = true)
+    (hsub : ∀ c ∈ cfg.sub, c ∉ cfg.bad) :
     expand cfg env num (lin t) =
       match render cfg env num t with
       | none => .unbound
-      | some r => .ok r (numbered t env)
+      | some r => .ok r (numbered t env) :=
+  expand_render cfg env num t hwf hsub
+
+private def t0 : Tmpl := [.var (s "jobname") none, .lit (s "-"), .var (s "title") (some (s "2")), .lit (s "_s"), .var (s "num") (some (s "3"))]
+
+/-- non-vacuity: a well-formed tree with a plain variable, a word-limited one and a padded number -/
+example : wf t0 = true ∧ lin t0 = s "${jobname}-${title.2}_s${num.3}" ∧
+    render cfg0 [(s "jobname", s "my job"), (s "title", s "A Tale of Two")] 7 t0 = some (s "my-job-A-Tale_s007") ∧
+    expand cfg0 [(s "jobname", s "my job"), (s "title", s "A Tale of Two")] 7 (lin t0) = .ok (s "my-job-A-Tale_s007") true ∧
+    expand cfg0 [(s "jobname", s "j")] 7 (lin t0) = .unbound := by decide
+
+/-! ### Observation O3: the give-up bound counts passes over the generator's whole life
+
+`passes` is initialised once, so a request has only `passesLeft st.passes` passes left
+(`passBound + 1 - st.passes`, at least one).  `st.fresh` is the same state with the counter reset, i.e.
+the budget the request would have if the bound were counted per request (what `Spec.srequest` prescribes). -/
+
+/-- the budget that is left -/
+theorem passes_left (p : Nat) : passesLeft p = if p ≤ passBound then passBound + 1 - p else 1 :=
+  passesLeft_eq p
+
+/-- **Exact characterisation of the deviation.**  Let a request with a full budget issue the name `n`
+    in its `j`-th wildcard pass (`j = 0`: a static name).  With the budget that is really left the request
+    issues the same name when `j ≤ passesLeft st.passes`, and otherwise reports `ValueError` — although the
+    fresh name `n ∉ st.taken` could be formed.  These are the only two outcomes. -/
+theorem lifetime_budget_deviation (cfg : Config) (st : State) (b : Env) (n : Str)
+    (h : (request cfg st.fresh b).2.1 = .name n) :
+    n ∉ st.taken ∧
+    ((request cfg st.fresh b).1.passes ≤ passesLeft st.passes → (request cfg st b).2.1 = .name n) ∧
+    (passesLeft st.passes < (request cfg st.fresh b).1.passes → (request cfg st b).2.1 = .error .valueError) := by
+  refine ⟨((request_ok cfg st.fresh b).name n h).1, ((request_budget cfg st b).2 n h).1, ((request_budget cfg st b).2 n h).2⟩
+
+/-- … hence a request fails although a fresh name exists **iff** the first fresh candidate lies beyond the
+    passes that are left. -/
+theorem fails_though_fresh_iff (cfg : Config) (st : State) (b : Env) (n : Str)
+    (h : (request cfg st.fresh b).2.1 = .name n) :
+    (request cfg st b).2.1 = .error .valueError ↔ passesLeft st.passes < (request cfg st.fresh b).1.passes := by
+  obtain ⟨h1, h2⟩ := (request_budget cfg st b).2 n h
+  constructor
+  · intro he
+    by_cases hle : (request cfg st.fresh b).1.passes ≤ passesLeft st.passes
+    · rw [h1 hle] at he; cases he
+    · omega
+  · exact h2
+
+/-- no spurious success: when even the full budget fails, the request fails -/
+theorem full_budget_error_is_error (cfg : Config) (st : State) (b : Env) (e : Err)
+    (h : (request cfg st.fresh b).2.1 = .error e) : (request cfg st b).2.1 = .error .valueError :=
+  (request_budget cfg st b).1 e h
+
+/-- no deviation while the lifetime counter plus the passes a request needs stay within the bound
+    (in particular for the first `passBound + 1` passes of a generator's life) -/
+theorem no_deviation_within_bound (cfg : Config) (st : State) (b : Env) (n : Str)
+    (h : (request cfg st.fresh b).2.1 = .name n)
+    (hb : st.passes + (request cfg st.fresh b).1.passes ≤ passBound + 1) :
+    (request cfg st b).2.1 = .name n := by
+  apply ((request_budget cfg st b).2 n h).1
+  rw [passesLeft_eq]
+  split <;> omega
+
+/-- the deviation is real: with the counter at the bound, one collision in the only alternative makes
+    the request fail although the next number is free (kernel-checked) -/
+theorem lifetime_budget_counterexample :
+    let st : State := { st0 with statics := [], wildcard := [s "s${num}"], taken := [s "s1.html"], passes := passBound }
+    (request cfg0 st []).2.1 = .error .valueError ∧ (request cfg0 st.fresh []).2.1 = .name (s "s2.html") := by
+  decide
+
+/-! ### The model refines the reference generator of the Spec
+
+`Rel st sst`: the model state runs the linearisation of the (well-formed) template trees of the Spec
+state, with the same number, taken set, initial namespace and liveness. -/
+
+/-- **One request of the code = one request of the reference generator with the budget that is left**:
+    same result (name or `ValueError`) and related successor states, for every related pair of states and
+    every binding that does not bind `num`. -/
+theorem request_refines_spec (cfg : Config) (hsub : ∀ c ∈ cfg.sub, c ∉ cfg.bad) (st : State) (sst : SState) (b : Env)
+    (hR : Rel st sst) (hnum : envGet (envUpdate sst.base b) numKey = none) :
+    (request cfg st b).2.1 = (srequestFuel cfg (passesLeft st.passes) sst b).2 ∧
+    Rel (request cfg st b).1 (srequestFuel cfg (passesLeft st.passes) sst b).1 :=
+  request_sim cfg hsub st sst b hR hnum
+
+/-- with an unused lifetime counter the budget is the Spec's own (`passBound + 1` passes) -/
+theorem first_request_is_spec (cfg : Config) (hsub : ∀ c ∈ cfg.sub, c ∉ cfg.bad) (st : State) (sst : SState) (b : Env)
+    (hR : Rel st sst) (hnum : envGet (envUpdate sst.base b) numKey = none) (hp : st.passes = 0) :
+    (request cfg st b).2.1 = (srequest cfg sst b).2 ∧ Rel (request cfg st b).1 (srequest cfg sst b).1 := by
+  have h := request_sim cfg hsub st sst b hR hnum
+  have e : passesLeft st.passes = passBound + 1 := by rw [hp]; rfl
+  rw [e] at h
+  exact h
+
+/-- **Every name the code issues is the name the property prescribes** (static names first and in order,
+    then the first alternative that is bound and fresh, numbers advancing on numbered candidates), whatever
+    the lifetime counter is; the only possible disagreement with the Spec is a `ValueError` where the Spec
+    still finds a name — exactly the O3 deviation characterised above. -/
+theorem issued_name_is_spec_name (cfg : Config) (hsub : ∀ c ∈ cfg.sub, c ∉ cfg.bad) (st : State) (sst : SState) (b : Env)
+    (hR : Rel st sst) (hnum : envGet (envUpdate sst.base b) numKey = none) (nm : Str)
+    (h : (request cfg st b).2.1 = .name nm) :
+    (srequest cfg sst b).2 = .name nm ∧ Rel (request cfg st b).1 (srequest cfg sst b).1 :=
+  request_name_spec cfg hsub st sst b hR hnum nm h
+
+/-- **Whole histories**: a generator built from well-formed template trees (static names, then a wildcard
+    with at least one alternative) returns, for every request history that does not bind `num` and in which
+    it has not reported an error, exactly the results of the reference generator. -/
+theorem history_refines_spec (cfg : Config) (hsub : ∀ c ∈ cfg.sub, c ∉ cfg.bad) (statics wildcard : List Tmpl)
+    (vars : Env) (reserved : List Str) (bs : List Env) (hw : wildcard ≠ [])
+    (h1 : ∀ t ∈ statics, wf t = true) (h2 : ∀ t ∈ wildcard, wf t = true)
+    (hnum : ∀ b ∈ bs, envGet (envUpdate vars b) numKey = none)
+    (hall : ∀ r ∈ results cfg (initial ((statics.map lin).map Item.name ++ [Item.alts (wildcard.map lin)]) vars reserved) bs,
+      ∃ nm, r = .name nm) :
+    results cfg (initial ((statics.map lin).map Item.name ++ [Item.alts (wildcard.map lin)]) vars reserved) bs =
+      srun cfg (sinit statics wildcard vars reserved) bs :=
+  history_spec cfg hsub bs _ _ (initial_rel statics wildcard vars reserved hw h1 h2) hnum hall
+
+private def w0 : List Tmpl := [[.var (s "id") none], [.var (s "title") (some (s "2"))], [.lit (s "sect"), .var (s "num") (some (s "3"))]]
+
+/-- non-vacuity: the template `index [$id, $title(2), sect$num(3)]` as trees, a history with repeated and
+    missing values; both generators return the same four names -/
+example :
+    let bs : List Env := [[], [(s "id", s "a")], [(s "id", s "a"), (s "title", s "A b c")], []]
+    results cfg0 (initial (([[Seg.lit (s "index")]].map lin).map Item.name ++ [Item.alts (w0.map lin)]) [] [s "sect001.html"]) bs =
+      [.name (s "index.html"), .name (s "a.html"), .name (s "A-b.html"), .name (s "sect002.html")] ∧
+    srun cfg0 (sinit [[Seg.lit (s "index")]] w0 [] [s "sect001.html"]) bs =
+      [.name (s "index.html"), .name (s "a.html"), .name (s "A-b.html"), .name (s "sect002.html")] := by decide
 
 end PlasVerif.Properties.C15
